@@ -16,6 +16,7 @@ package internal
 
 import (
 	"net/http"
+	"strings"
 	"time"
 )
 
@@ -96,12 +97,21 @@ func (r *validationResponseHandler) HandleValidationResponse(
 		// The age restarts from the 304: a stored Age field is only kept if
 		// the 304 carries a new one.
 		ctx.Stored.Data.Header.Del("Age")
+		storedVary := strings.Join(ctx.Stored.Data.Header.Values("Vary"), ", ")
 		updateStoredHeaders(ctx.Stored.Data, resp)
 		ctx.Stored.RequestedAt, ctx.Stored.ReceivedAt = ctx.Start, ctx.End
 		// RFC 9111 §5.2.1.5, §5.2.2.5: with no-store on the request or on the
 		// 304, nothing of the 304 is written to the store.
 		noStore := ctx.CCReq.NoStore() || ParseCCResponseDirectives(resp.Header).NoStore()
-		if f, ok := r.rs.(ResponseFreshener); ok && ctx.Stored.ID != "" && !noStore {
+		switch f, ok := r.rs.(ResponseFreshener); {
+		case !ok || ctx.Stored.ID == "" || noStore:
+		case strings.Join(ctx.Stored.Data.Header.Values("Vary"), ", ") != storedVary:
+			// The 304 changed the Vary field: the reference in the index, and the
+			// identifier derived from the nominated values, no longer describe
+			// the response. It is stored anew for this request, like a full reply,
+			// so that it is selected by what it now says it varies on.
+			_ = r.rs.StoreResponse(req, ctx.Stored.Data, ctx.URLKey, ctx.Refs, ctx.Start, ctx.End, ctx.RefIndex)
+		default:
 			_ = f.FreshenResponse(ctx.Stored)
 		}
 		CacheStatusRevalidated.ApplyTo(ctx.Stored.Data.Header)
